@@ -141,6 +141,10 @@ class Scenario:
                 before = self.inh_factory_calls
                 r = await ctx.get_resource(TA, "inh", optional=True)
                 r2 = await ctx.get_resource(TB, "inh", optional=True)
+                # ... and one whose (inherited) factory is asynchronous: generated on first use, which may well be during teardown
+                r3 = await ctx.get_resource(TD, "inh_async", optional=True)
+                if self.case["nested"] and not isinstance(r3, TD):
+                    self.bad(f"lifecycle-wrongly-rejected[{state},{op}]", f"get_resource() of a resource made by an asynchronous factory returned {r3!r} in state {state}")
                 outcome = "ok"
             elif op == "get_resource_nowait":
                 r = ctx.get_resource_nowait(TA, "inh", optional=True)
@@ -222,17 +226,31 @@ class Scenario:
             self.inh_factory_calls += 1
             return TB()
 
+        async def inh_async_factory() -> TD:
+            self.inh_factory_calls += 1
+            await checkpoint()
+            return TD()
+
         async def body() -> None:
             self.ctx = ctx = Context()
+            # a lookup *written* before entry and only awaited once the context is open happens while it is open ...
+            early_lookup: Any = None
+            try:
+                early_lookup = ctx.get_resource(TA, "inh", optional=True)
+            except RuntimeError:
+                pass  # (an implementation that validates when called rather than when awaited rejects it here: just as good)
             for op in ops.get("inactive", []):
                 await self.apply("inactive", op)
             if ops.get("inactive"):
                 self.inspect("before entry")
             if case.get("never_enter"):
+                if early_lookup is not None:
+                    early_lookup.close()
                 if self.inh_factory_calls:
                     self.bad("lifecycle-rejected-call-changed-state", "a rejected lookup on a never-entered context called the inherited factory")
                 return
             boundary: BaseException | None = None
+            late_lookup: list[Any] = []
             closed_before_end = None
             first_td_closed: list[Any] = []
             with CancelScope() as scope:
@@ -272,6 +290,15 @@ class Scenario:
                         for op in ops.get("open", []):
                             await self.apply("open", op)
                         self.inspect("while open")
+                        if early_lookup is not None:
+                            try:
+                                await early_lookup
+                                self.inc("lookups_created_before_entry_and_awaited_while_open")
+                            except RuntimeError as e:
+                                self.bad("lifecycle-wrongly-rejected[open,get_resource]", f"a get_resource() coroutine created before entry and awaited while "
+                                                                                          f"the context was open raised {describe_exc(e)}")
+                        # ... and one written while the context is open but only awaited after it was closed happens after closing
+                        late_lookup.append(ctx.get_resource(TB, "inh", optional=True))
 
                         def first_td() -> None:
                             first_td_closed.append(ctx.closed)
@@ -298,6 +325,18 @@ class Scenario:
             state = {"clean": "closed_clean", "block_raises": "closed_block_failed", "teardown_raises": "closed_teardown_raised",
                      "cancelled": "closed_cancelled"}[ending]
             self.inc("state_" + state)
+            if late_lookup:
+                calls = self.inh_factory_calls
+                try:
+                    got = await late_lookup[0]
+                except RuntimeError:
+                    self.inc("lookups_created_while_open_and_awaited_after_close")
+                except BaseException as e:  # noqa: BLE001
+                    self.bad(f"lifecycle-wrong-exception[{state},get_resource]", f"a get_resource() coroutine created while the context was open and awaited "
+                                                                                  f"after it was closed raised {describe_exc(e)}, not RuntimeError")
+                else:
+                    self.bad(f"lifecycle-wrongly-accepted[{state},get_resource]", f"a get_resource() coroutine created while the context was open and awaited after "
+                                                                                   f"it was closed returned {got!r} (factory calls made by it: {self.inh_factory_calls - calls})")
             ran_before = list(self.td_ran)
             for op in ops.get("closed", []):
                 await self.apply(state, op)
@@ -310,6 +349,7 @@ class Scenario:
             async with Context() as parent:
                 parent.add_resource(TA(), "inh")
                 parent.add_resource_factory(inh_factory, "inh", types=[TB])
+                parent.add_resource_factory(inh_async_factory, "inh_async", types=[TD])
                 await body()
         else:
             await body()
